@@ -8,7 +8,7 @@ def regen_check(ctx, group, equiv_name):
     returns (ok, info)"""
     import os, re, shutil, subprocess, sys
     V = runner.V
-    scratch = os.path.join(V, "build", ctx.prop_id, "gen")
+    scratch = os.path.join(ctx.scratch, "gen")
     os.makedirs(scratch, exist_ok=True)
     gen_v = os.path.join(scratch, "Gen_%s.v" % group)
     for ext in (".vo", ".vos", ".vok", ".glob"):
